@@ -60,6 +60,8 @@ def units(tier, seed):
               [1, 255, 256, 257, 511, 512, 768, 1024]):
         u.append({'k': 'exitstatus', 'n': n})
     u.append({'k': 'nested'})
+    for i in range(3 if tier == 'quick' else 9):
+        u.append({'k': 'wide', 'i': i})
     for i in range(10 if tier == 'quick' else 200):
         u.append({'k': 'loop', 'i': i})
     for i in range(12 if tier == 'quick' else 120):
@@ -352,6 +354,58 @@ def exec_stress(ctx, nstray, kind):
         ctx.sample(case, 'stress')
 
 
+def exec_wide(ctx, ndirs, which):
+    """Many directories (more than any batch size the walker may hand around), one
+    listed file each: all altered, or a single one at a given position of the walk."""
+    from gemato.recursiveloader import ManifestRecursiveLoader
+    with common.Scratch('vf-c07w-') as d:
+        root = os.path.join(d, 't')
+        ents = []
+        names = ['d%03d' % i for i in range(ndirs)]
+        for nm in names:
+            os.makedirs(os.path.join(root, nm))
+            with open(os.path.join(root, nm, 'f'), 'w') as f:
+                f.write('good')
+            ents.append(mtext.file_entry('DATA', nm + '/f', b'good', ['MD5']))
+        with open(os.path.join(root, 'Manifest'), 'w') as f:
+            f.write(mtext.render(ents))
+        case = {'kind': 'wide', 'n': ndirs, 'which': which}
+        ctx.case(sig=('wide', ndirs, which if which == 'all' else 'one'), case=case,
+                 klass='wide')
+        ctx.count('wide_runs')
+        # the order in which this file system enumerates the directories
+        order = [nm for nm in next(os.walk(root))[1]]
+        bad = names if which == 'all' else [order[which % ndirs]]
+        for nm in bad:
+            with open(os.path.join(root, nm, 'f'), 'w') as f:
+                f.write('evil')
+        rec = Recorder('false')
+        try:
+            m = ManifestRecursiveLoader(os.path.join(root, 'Manifest'),
+                                        verify_openpgp=False)
+            ret = m.assert_directory_verifies('', fail_handler=rec)
+        except Exception as exc:
+            ctx.violation('wide-raises:' + adapt.exc_key(exc), 'keep-going verification '
+                          'of %d directories raised %r' % (ndirs, exc), case)
+            return
+        got = sorted(e.path for e in rec.calls)
+        want = sorted(nm + '/f' for nm in bad)
+        if got != want or ret is not False:
+            ctx.violation('offender-not-reported:wide-tree', 'tree of %d directories, %d '
+                          'altered file(s): %d report(s), result %r; missing %r'
+                          % (ndirs, len(want), len(got), ret,
+                             sorted(set(want) - set(got))[:3]), case)
+
+
+def run_wide(u, ctx):
+    n = [70, 150, 300][u['i'] % 3]
+    exec_wide(ctx, n, 'all')
+    # (positions just behind multiples of the batch sizes a walker might use)
+    for pos in (15, 16, 17, 31, 32, 63, 64, 65, 127, 128, 129, 130, 255, 256):
+        if pos < n:
+            exec_wide(ctx, n, pos)
+
+
 def run_nested(u, ctx):
     """`gemato verify -k OUTER INNER` where verifying OUTER does not cover INNER (a
     hidden directory; an IGNOREd directory that is a tree of its own): the exit status
@@ -607,7 +661,7 @@ def run_structural(u, ctx):
 
 
 def run_unit(u, ctx):
-    {'gen': run_gen, 'stress': run_stress, 'loop': run_loop,
+    {'gen': run_gen, 'stress': run_stress, 'loop': run_loop, 'wide': run_wide,
      'structural': run_structural, 'exitstatus': run_exitstatus,
      'nested': run_nested}[u['k']](u, ctx)
 
@@ -618,6 +672,9 @@ def replay(case, ctx):
         return
     if case.get('kind') == 'exitstatus':
         run_exitstatus({'n': case['n']}, ctx)
+        return
+    if case.get('kind') == 'wide':
+        exec_wide(ctx, case['n'], case['which'])
         return
     if case.get('kind') == 'nested':
         run_nested({}, ctx)
